@@ -505,6 +505,10 @@ def islice_end_bound(spec):
     if spec[0] != "slice":
         return None
     start, stop, step = slice_parts(spec[1])
+    if start is not None and stop is not None and stop <= start < 0:
+        # xs[start:stop] is empty for every xs: the empty prefix determines the (empty) result, and
+        # behind an unbounded flow the end must still be found ("shortest prefix that determines")
+        return 0
     if stop is None or stop < 0 or (start is not None and start < 0):
         return None
     return max(start or 0, stop)
